@@ -103,7 +103,10 @@ func NewReader(data []byte, d Delivery) (io.Reader, *SchedReader) {
 // ReadPlan reads r to the end using the given buffer sizes in turn (cycled);
 // zero-length buffers are allowed. It returns the bytes and the final error
 // (io.EOF for a clean end).
-func ReadPlan(r io.Reader, plan []int) ([]byte, error) {
+func ReadPlan(r io.Reader, plan []int) ([]byte, error) { return ReadPlanHook(r, plan, nil) }
+
+// ReadPlanHook is ReadPlan with a function called after every Read.
+func ReadPlanHook(r io.Reader, plan []int, hook func()) ([]byte, error) {
 	if len(plan) == 0 {
 		plan = []int{4096}
 	}
@@ -123,6 +126,9 @@ func ReadPlan(r io.Reader, plan []int) ([]byte, error) {
 		buf := make([]byte, sz)
 		n, err := r.Read(buf)
 		out = append(out, buf[:n]...)
+		if hook != nil {
+			hook()
+		}
 		if err != nil {
 			return out, err
 		}
